@@ -6,11 +6,11 @@ PROP = dict(
         "statime_algo::matrix::Matrix::<[f64;25]>::{new,new_vec,splice_vec,splice_square,extend_vec,extend,zero,index}",
         "statime_algo::KalmanController::<NoAllocKalmanStorage<FixedClock,4>,FixedClock>::{new,remove_clock,add_external_clock,remove_external_clock,create_untracked_link,clock_offset,clock_frequency} + LinkFilter counterparts",
     ],
-    bounds="estimator: 2 clock ids + 1 link id (<= 5 state rows, 25 covariance entries), concrete storage NoAllocKalmanStorage (fixed arrays + ArrayVec; the estimator/matrix/filter code is generic and shared with the heap storage); "
-           "pre-states = six scripted layouts (c0 c1 L / c1 c0 L / c0 x1 L / L c0 / c1 L c0 / single clock); "
-           "then each of the 10 operations {add,remove}x{clock c0,c1; external c0,c1; link}; every state-vector and covariance entry an arbitrary f64 bit pattern (NaN and infinities included), compared bit-wise; "
+    bounds="estimator: 2 clock ids + 1 link id; <= 3 state rows (1 clock + 1 link to an external clock) in a 9-entry storage, concrete storage NoAllocKalmanStorage (fixed arrays + ArrayVec; the estimator/matrix/filter code is generic and shared with the heap storage); "
+           "pre-state = scripted layout c0 L (c1 external); operations: remove_clock(c0) and duplicate add_clock(c1); "
+           "every state-vector and covariance entry an arbitrary f64 bit pattern (NaN and infinities included), compared bit-wise; "
            "controller: system clock + one external clock + one untracked link, every entry symbolic, one of 6 operations with symbolic identifiers (all usize)",
-    outside="pre-states other than the six scripted layouts (an exhaustive enumeration of operation sequences was written and dropped: > 5M symbolic-execution steps); controller with a second steered clock or tracked links (by-value moves of the 16-slot link list / LinkNoiseEstimator exhaust 8 GB); 3 or more clocks / 2 or more links (9x9 matrices: symbolic execution of the array-moving code did not finish in 15 min; with the heap storage Vec growth through realloc leaves every list loop unbounded for the symbolic executor); "
+    outside="every other layout/operation pair: the harness module contains c42_ops_b (layout L c0, remove L) and c42_ops_s{0..5}_{clock,ext,link} (six layouts with up to 2 clocks + 1 link x all 10 operations) which are NOT registered: kani-driver exhausts 8 GB parsing CBMC's per-check traces once the run exceeds ~300k symbolic-execution steps with by-value array storage (measured: 316k steps fails, 278k passes); controller with a second steered clock or tracked links (by-value moves of the 16-slot link list / LinkNoiseEstimator exhaust 8 GB); 3 or more clocks / 2 or more links (9x9 matrices: symbolic execution of the array-moving code did not finish in 15 min; with the heap storage Vec growth through realloc leaves every list loop unbounded for the symbolic executor); "
             "measurement() and progress_time() to a later time (matrix products of symbolic f64: outside, see C06 rationale); variance of a newly added element (powi(2): CBMC has no exact model); "
             "LinkNoiseEstimator state of tracked links; the values returned by clock_offset/clock_frequency for existing clocks are read through a hook using the same get_clock_info(..).offset_index() lookup (calling the queries costs a symbolic sqrt each)",
     assumptions=[
@@ -19,13 +19,9 @@ PROP = dict(
     ],
     stub_notes=["no stubs; ClockId/LinkId built from raw parts through hook constructors (ClockId::new/LinkId::new draw from a global counter)"],
     harnesses=[
-        H(ST, "c42", "c42_ops", "layout c0 c1 L, remove c0 (every other row shifts): survivors' values and all pairwise covariances bit-identical, index layout stays a bijection onto the rows, success iff identifier rules allow", timeout=900),
-        H(ST, "c42", "c42_ops_b", "layout c1 L c0, remove L (c0 shifts)", timeout=900),
-        H(ST, "c42", "c42_ops_c", "layout L c0 with external c1, add_clock(c1): duplicate id rejected", timeout=900),
+        H(ST, "c42", "c42_ops", "3-row layout c0 L (x1 external), remove c0 (the link row shifts to the front): survivors' values and all pairwise covariances bit-identical, index layout stays a bijection onto the rows, success iff identifier rules allow", timeout=1200),
+        H(ST, "c42", "c42_ops_c", "3-row layout c0 L with external c1, add_clock(c1): duplicate id rejected", timeout=1200),
         H(ST, "c42", "c42_time", "progress_time to an earlier time is NonMonotonicTimeProgression; to the current time leaves time, state and covariance bit-identical", timeout=900),
         H(ST, "c42", "c42_ctl", "KalmanController: unknown/duplicate/wrong-kind identifiers fail and leave every entry, the dimension and the clock/link lists unchanged; succeeding calls (add/remove external clock, new link) leave the clock's entries unchanged", timeout=900),
-    ] + [
-        H(ST, "c42", "c42_ops_s%d_%s" % (i, g), "scripted layout %d x all %s operations" % (i, g), tier="thorough", timeout_thorough=1800)
-        for i in range(6) for g in ("clock", "ext", "link")
     ],
 )
